@@ -96,14 +96,14 @@ Fixpoint unknown_oracle (seen : bytes) (chunks : list bytes) (obs : list (list m
    keep-alive, a handshake or a frame with one of the nine ids is backed by the next delivered message, which it encodes
    by the BEP3 layout of WireSpec.v (reserved handshake bytes free); a frame with any other id is backed by nothing; no
    message is delivered that no token backs.  What stays buffered is not a complete token. *)
-Definition token_len (s : bytes) : option N :=       (* None: fewer than the 4 (5) bytes that decide *)
+Definition token_len (s : bytes) : option (N * bool) :=       (* (length, is a handshake); None: too few bytes to decide *)
   match s with
   | a :: b :: c :: d :: rest =>
       let L := ((a * 256 + b) * 256 + c) * 256 + d in
-      if L =? 0 then Some 4
+      if L =? 0 then Some (4, false)
       else match rest with
            | [] => None
-           | id :: _ => if (L =? 323119476) && (id =? 84) then Some 68 else Some (4 + L)
+           | id :: _ => if (L =? 323119476) && (id =? 84) then Some (68, true) else Some (4 + L, false)
            end
   | _ => None
   end.
@@ -112,35 +112,45 @@ Definition handshake_token_ok (m : msg) (t : bytes) : bool :=
   | Handshake h p => bytes_eqb (firstn 20 t) (19 :: pstr) && bytes_eqb (skipn 28 t) (h ++ p) && (len h =? 20) && (len p =? 20)
   | _ => false
   end.
-Fixpoint consumed_ok (fuel : nat) (s : bytes) (ms : list msg) : bool :=
+(* whole = true: s must consist of whole tokens and ms be exactly the messages they back (the consumed part of a pending
+   stream); whole = false: the tokens at the front of s must back ms in order, whatever follows (what was delivered before
+   an error or the end of the stream) *)
+Fixpoint consumed_ok (whole : bool) (fuel : nat) (s : bytes) (ms : list msg) : bool :=
   match fuel with
   | O => false
   | S f =>
-      match s with
-      | [] => match ms with [] => true | _ => false end
-      | _ =>
+      match s, ms with
+      | [], [] => true
+      | [], _ :: _ => false
+      | _ :: _, [] => if whole then (match token_len s with
+                                     | Some (tl, hs) =>
+                                         if len s <? tl then false else
+                                         (* only frames that back nothing may remain *)
+                                         match firstn (N.to_nat tl) s with
+                                         | _ :: _ :: _ :: _ :: id :: _ => negb hs && negb (id <=? 8) && consumed_ok whole f (skipn (N.to_nat tl) s) []
+                                         | _ => false
+                                         end
+                                     | None => false
+                                     end)
+                      else true
+      | _ :: _, m :: ms' =>
           match token_len s with
           | None => false
-          | Some tl =>
+          | Some (tl, hs) =>
               if len s <? tl then false else
               let t := firstn (N.to_nat tl) s in
               let s' := skipn (N.to_nat tl) s in
               let known := match t with
-                           | _ :: _ :: _ :: _ :: id :: _ => (tl =? 68) && (id =? 84) || (id <=? 8)
+                           | _ :: _ :: _ :: _ :: id :: _ => hs || (id <=? 8)
                            | _ => true                       (* keep-alive *)
                            end in
-              if known then
-                match ms with
-                | m :: ms' => (if tl =? 68 then match m with Handshake _ _ => handshake_token_ok m t | _ => bep3b m t end
-                               else bep3b m t) && consumed_ok f s' ms'
-                | [] => false
-                end
-              else consumed_ok f s' ms
+              if known then (if hs then handshake_token_ok m t else bep3b m t) && consumed_ok whole f s' ms'
+              else consumed_ok whole f s' ms
           end
       end
   end.
 Definition incomplete (rest : bytes) : bool :=
-  match token_len rest with None => true | Some tl => len rest <? tl end.
+  match token_len rest with None => true | Some (tl, _) => len rest <? tl end.
 Fixpoint token_oracle (seen : bytes) (delivered : list msg) (chunks : list bytes) (obs : list (list msg * term)) : bool :=
   match chunks, obs with
   | ch :: cs, (ms, t) :: os =>
@@ -150,9 +160,9 @@ Fixpoint token_oracle (seen : bytes) (delivered : list msg) (chunks : list bytes
       | TPending n =>
           if len seen' <? n then false else
           let k := N.to_nat (len seen' - n) in
-          consumed_ok (S (length seen')) (firstn k seen') delivered' && incomplete (skipn k seen')
+          consumed_ok true (S (length seen')) (firstn k seen') delivered' && incomplete (skipn k seen')
           && token_oracle seen' delivered' cs os
-      | _ => true
+      | _ => consumed_ok false (S (length seen')) seen' delivered'
       end
   | _, _ => true
   end.
